@@ -411,7 +411,7 @@ func projectRecursive(at *AttributeExpr, vat *NamedAttributeExpr, view string, s
 			}
 		}
 		if att, ok := seen[hashAttrAndView(at, view)]; ok {
-			return att, nil
+			return projectedAttribute(at, att), nil
 		}
 		at = DupAtt(at)
 		seen[hashAttrAndView(at, view)] = at
@@ -424,7 +424,7 @@ func projectRecursive(at *AttributeExpr, vat *NamedAttributeExpr, view string, s
 	}
 
 	if att, ok := seen[hashAttrAndView(at, view)]; ok {
-		return att, nil
+		return projectedAttribute(at, att), nil
 	}
 	at = DupAtt(at)
 
@@ -500,6 +500,28 @@ func (v *ViewExpr) EvalName() string {
 
 // hashAttrAndView computes a hash for an attribute and a view that returns the
 // same value for two attributes and views that produce the same projected type.
+// projectedAttribute returns the projection of at given the attribute
+// recorded for the same type and view: a copy of at - which may have a
+// different description, metadata, validations etc. than the recorded
+// attribute - that uses the projected type. It returns the recorded attribute
+// itself if its projection is still being computed (recursive result types).
+func projectedAttribute(at, projected *AttributeExpr) *AttributeExpr {
+	if rt, ok := at.Type.(*ResultTypeExpr); ok {
+		if prt, ok := projected.Type.(*ResultTypeExpr); ok && prt.Identifier == rt.Identifier {
+			return projected
+		}
+	}
+	dup := *at
+	dup.Type = projected.Type
+	if at.Validation != nil {
+		dup.Validation = at.Validation.Dup()
+	}
+	if at.Meta != nil {
+		dup.Meta = at.Meta.Dup()
+	}
+	return &dup
+}
+
 func hashAttrAndView(att *AttributeExpr, view string) string {
 	return Hash(att.Type, false, false, false) + "::" + view
 }
